@@ -42,6 +42,9 @@ HISTORIES = {
     # both ends happen to choose the same SPI values (the inbound SPI is ours, the outbound one the peer's: equal values are legal, the kernel names an SA by destination, protocol and SPI)
     'equal-spi-values': (dict(equal_spis=True), [T('A', 'acquire'), D, T('B', 'expire_soft'), D, T('A', 'expire_hard'), D, T('B', 'rekey_ike'), D, T('A', 'expire_soft'), D, T('B', 'delete_ike'), D]),
     'equal-spi-values-tunnel': (dict(equal_spis=True, mode='tunnel', a_subnet='10.1.0.0/24', b_subnet='10.2.0.0/24'), [T('B', 'acquire'), D, T('B', 'expire_hard'), D, T('A', 'delete_ike'), D]),
+    # the daemon is restarted with an EDITED configuration (AH entries switched to ESP and the reverse): nothing of the previous run may stay in the SAD
+    'restart-after-switching-ah-to-esp': (dict(ipsec_proto='ah'), [T('A', 'acquire'), D, ('restart-edited', 'A', dict(ipsec_proto='esp')), ('ticks', 2, 1.0), T('A', 'acquire'), D]),
+    'restart-after-switching-esp-to-ah': (dict(), [T('B', 'acquire'), D, ('restart-edited', 'B', dict(ipsec_proto='ah')), ('ticks', 2, 1.0)]),
     'new-child-A': ({}, [T('A', 'acquire'), D]),
     'new-child-B': ({}, [T('B', 'acquire'), D]),
     'rekey-child-A': ({}, [T('A', 'expire_soft'), D]),
@@ -121,6 +124,20 @@ def _run_history(name, seed, mons, fault, kw, script):
                 d = sc.sim.net.pop(min(act[1], len(sc.sim.net) - 1))
                 sc.sim.case['actions'].append(('deliver-from', act[2]))
                 sc.sim.inject(sc.sim.addr2ep[d.dst], act[2], d.dst, d.data)
+        elif act[0] == 'restart-edited':
+            ep_ = sc.ep(act[1])
+            ca_, cb_ = S.pair_conf(**dict(kw, **act[2]))
+            sc.sim.case['actions'].append(('restart-edited', act[1], act[2]))
+            try:
+                ep_.restart(ca_ if act[1] == 'A' else cb_)
+            except Exception:
+                # an injected kernel refusal during start-up: the daemon does not come up (not this property's business); the history ends here
+                sc.sim.case['actions'].append(('start-up-failed',))
+                sc.equal_spi_children = 0
+                return sc           # (no settle: the old controller object is a dead process, stepping it would judge a ghost)
+            for m_ in mons:
+                if hasattr(m_, 'forget'):
+                    m_.forget(ep_)
         elif act[0] == 'dropall':
             sc.sim.net.clear()
         elif act[0] == 'ticks':
